@@ -335,6 +335,10 @@ pub fn check_index(o: &Object) -> Result<usize, String> {
         keys.push(es[*rep].key.as_str());
     }
     if let Some(p) = seen.iter().position(|s| !*s) { return Err(format!("entry {} ({:?}) is in no index bucket", p, es[p].key.as_str())); }
+    // every bucket must be reachable by a lookup of its own key (i.e. it sits where its key hashes to)
+    for (rep, _) in &dump {
+        if o.index_of(es[*rep].key.as_str()) != Some(*rep) { return Err(format!("the index bucket of key {:?} (rep {}) is not found by a lookup of that key: it sits in a slot its key does not hash to", es[*rep].key.as_str(), rep)); }
+    }
     keys.sort_unstable();
     if keys.windows(2).any(|w| w[0] == w[1]) { return Err("two index buckets carry the same key".into()); }
     Ok(buckets)
@@ -431,7 +435,7 @@ pub fn run_c06(sc: &HistSc, st: &mut Stats) -> HistOutcome {
             _ => {}
         }
         // key-based queries
-        let full = small || step % 4 == 3 || step + 1 == sc.ops.len();
+        let full = small || step + 1 == sc.ops.len() || if uni.len() > 64 { step % 32 == 31 } else { step % 4 == 3 };
         for &q in &touched {
             if full {
                 for (i, k) in uni.iter().enumerate() {
